@@ -13,6 +13,7 @@ CONSTANTS
   RemoveCancels = TRUE
   CycleSkipsLocked = TRUE
   OfferSkipsLocked = TRUE
+  OfferSkipsOccupied = TRUE
 CONSTRAINT AtMostOneNegotiation
 CONSTRAINT SlotsTrackLive
 CONSTRAINT QuietNoTasks
